@@ -386,3 +386,62 @@ def run_tokext(run, P, units=('coap_pdu.c',)):
                               '%s adds constants summing to %d; the on-wire size of a token in this extension form is value + %d (bias) + %d (extension length byte%s) = + %d: '
                               'this decoder and its sibling disagree by %d byte(s)' % (short(t)[:70], csum, bias, TOKEN_EXT[macro], 's' if TOKEN_EXT[macro] > 1 else '', want, abs(want - csum)), [])
     run.require(n >= 4 or run.fixture_mode, 'R-CODEC-TAB(6): only %d extended-token size expressions found in %s' % (n, units))
+
+
+def run_tokbias(run, P, units=('coap_pdu.c',)):
+    """(7) which length the RFC 8974 thresholds apply to.  COAP_TOKEN_EXT_1B_BIAS (13) and COAP_TOKEN_EXT_2B_BIAS (269) partition the
+    APPLICATION token length (0-12 in the nibble, 13-268 one extension byte, 269- two).  An ordering comparison against one of these
+    macros therefore never has e_token_length as its other operand: that field already contains the extension bytes (a 268 byte token has
+    e_token_length 269), so the partition would be off by one at exactly the boundary tokens."""
+    run.rule('R-CODEC-TAB')
+    MAC = ('COAP_TOKEN_EXT_1B_BIAS', 'COAP_TOKEN_EXT_2B_BIAS')
+    n = 0
+    for f in sorted(P.lib_funcs(), key=lambda f: f['name']):
+        if f['unit'] not in units:
+            continue
+        # locals that hold e_token_length
+        wire_locals = set()
+        for b, ev in P.events(f):
+            t = ev['e']
+            srcs = []
+            if t.get('k') == 'asg' and t.get('op') == '=':
+                srcs.append((ap(t['l']), t['r']))
+            for d in t.get('d') or ():
+                if d.get('init') is not None:
+                    srcs.append(('v%d' % d['id'], d['init']))
+            for l, r in srcs:
+                r0 = strip(r)
+                if l and isinstance(r0, dict) and r0.get('k') == 'mem' and r0.get('f') == 'e_token_length':
+                    wire_locals.add(l)
+        seen = set()
+        for b in f['blocks']:
+            exprs = [(ev['e'], ev['loc']) for ev in b['elems']]
+            if b.get('term') and b['term'].get('cond') is not None:
+                exprs.append((b['term']['cond'], b['term']['loc']))
+            for e, loc in exprs:
+                for x in walk(e):
+                    if not (isinstance(x, dict) and x.get('k') == 'bin' and x.get('op') in ('<', '<=', '>', '>=')):
+                        continue
+                    for m, o in ((x['l'], x['r']), (x['r'], x['l'])):
+                        m0 = strip(m)
+                        if isinstance(m0, dict) and m0.get('k') == 'int' and m0.get('mn') in MAC:
+                            k2 = (loc, short(x)[:80])
+                            if k2 in seen:
+                                continue
+                            seen.add(k2)
+                            n += 1
+                            o0 = strip(o)
+                            wire = (isinstance(o0, dict) and o0.get('k') == 'mem' and o0.get('f') == 'e_token_length') or ap(o0) in wire_locals
+                            if wire:
+                                # exact: does the comparison decide differently for some token length than it would on the application length?
+                                K = m0.get('v')
+                                op = x['op'] if m is x['r'] else {'<': '>', '<=': '>=', '>': '<', '>=': '<='}[x['op']]
+                                cmpf = {'<': lambda a, b: a < b, '<=': lambda a, b: a <= b, '>': lambda a, b: a > b, '>=': lambda a, b: a >= b}[op]
+                                wire = any(cmpf(a + (0 if a < 13 else 1 if a < 269 else 2), K) != cmpf(a, K) for a in range(0, 65805))
+                            run.instance('R-CODEC-TAB', '%s: %s' % (f['name'], short(x)[:70]))
+                            run.oblige('R-CODEC-TAB', not wire, '%s:tokbias-operand' % f['name'])
+                            if wire:
+                                run.violation('R-CODEC-TAB', f['name'], loc, 'bias-compared-with-wire-size:%s' % m0['mn'],
+                                              '%s compares the on-wire token size (e_token_length, extension bytes included) with %s, which partitions the application token '
+                                              'length: for a token of exactly %d bytes the wrong arm is taken' % (short(x)[:70], m0['mn'], (m0.get('v') or 0) - 1), [])
+    run.require(n >= (6 if run.cfg == 'base' else 4) or run.fixture_mode, 'R-CODEC-TAB(7): only %d comparisons with the extended-token bias macros found' % n)
